@@ -48,9 +48,20 @@ fn cross(ctx: &Ctx, rep: &mut Report, id: usize, n: usize, m: usize, cp: usize, 
         return;
     }
     let mut prng = FaultRng::new(RngKind::Healthy(rng.next_u64()));
-    let Ok(proof) = case.prove(&mut prng) else {
-        rep.note("C12: prover refused a valid case (see C01)".into());
-        return;
+    let proof = match no_panic(|| case.prove(&mut prng)) {
+        Ok(Ok(p)) => p,
+        Ok(Err(_)) => {
+            rep.note("C12: prover refused a valid case (see C01)".into());
+            return;
+        },
+        Err(p) => {
+            rep.violation(
+                &format!("C12 prove-panic cap{}m", if cp > m { ">" } else { "=" }),
+                &format!("proving {m} commitment(s) over parameters of capacity {cp} panicked: {p}"),
+                json!({"tier": if ctx.thorough() {"thorough"} else {"quick"}, "seed": ctx.seed, "leg": leg, "case": id, "descr": {"group": GROUP, "bits": n, "aggregation": m, "capacity": cp, "ext": ext}}),
+            );
+            return;
+        },
     };
     let pp = case.params();
     let mut cv = m;
@@ -169,13 +180,35 @@ fn mixed_batch(ctx: &Ctx, rep: &mut Report, id: usize, b: usize, leg: &str) {
         let cp = if (i + b) % 2 == 0 { cap } else { m.max(cap / 2) };
         let case = Case::random(Cfg::new(n, m, cp, ext), VALUE_CLASSES[(i + b) % 6], PROMISE_CLASSES[(i + b) % 5], true, &mut rng);
         let mut prng = FaultRng::new(RngKind::Healthy(rng.next_u64()));
-        let Ok(p) = case.prove(&mut prng) else { return };
+        let p = match no_panic(|| case.prove(&mut prng)) {
+            Ok(Ok(p)) => p,
+            Ok(Err(e)) => {
+                rep.violation("C12 member-not-provable", &format!("a valid member ({m} commitments, capacity {cp}, seeded {}) cannot be proved: {e}", case.seed.is_some()),
+                    json!({"tier": if ctx.thorough() {"thorough"} else {"quick"}, "seed": ctx.seed, "leg": leg, "case": id, "descr": {"group": GROUP, "bits": n, "ext": ext, "aggregation": m, "capacity": cp}}));
+                return;
+            },
+            Err(pn) => {
+                rep.violation("C12 prove-panic member", &format!("proving a valid member ({m} commitments, capacity {cp}) panicked: {pn}"),
+                    json!({"tier": if ctx.thorough() {"thorough"} else {"quick"}, "seed": ctx.seed, "leg": leg, "case": id, "descr": {"group": GROUP, "bits": n, "ext": ext, "aggregation": m, "capacity": cp}}));
+                return;
+            },
+        };
         made.insert((m, cap), cases.len());
         cases.push(case);
         proofs.push(p);
     }
     let ts: Vec<Transcript> = cases.iter().map(|c| c.transcript()).collect();
-    let sts: Vec<Stmt> = cases.iter().zip(mixture.iter()).map(|(c, (_, cap))| c.statement_with(&params_uncached(n, *cap, ext), &c.promises, c.seed)).collect();
+    let mut sts: Vec<Stmt> = vec![];
+    for (c, (mm, cap)) in cases.iter().zip(mixture.iter()) {
+        match RangeStatement::init(params_uncached(n, *cap, ext), c.commitments.clone(), c.promises.clone(), c.seed) {
+            Ok(s) => sts.push(s),
+            Err(e) => {
+                rep.violation(&format!("C12 statement-refused cap{}m", if cap > mm { ">" } else { "=" }), &format!("a statement for {mm} commitment(s) (seeded: {}) cannot be built over parameters of capacity {cap}: {e}", c.seed.is_some()),
+                    json!({"tier": if ctx.thorough() {"thorough"} else {"quick"}, "seed": ctx.seed, "leg": leg, "case": id, "descr": {"group": GROUP, "bits": n, "ext": ext, "aggregation": mm, "capacity": cap}}));
+                return;
+            },
+        }
+    }
     let replay = json!({"tier": if ctx.thorough() {"thorough"} else {"quick"}, "seed": ctx.seed, "leg": leg, "case": id, "descr": {"group": GROUP, "bits": n, "ext": ext, "mixture_aggregation_capacity": (if mixture.len() > 16 { mixture[..8].to_vec() } else { mixture.clone() }), "members": mixture.len()}});
     // every rotation of the batch: which member comes first matters for table and padding selection
     for rot in 0..(if mixture.len() > 16 { 1 } else { mixture.len() }) {
